@@ -47,9 +47,11 @@ POOL = [
     # 11: wrappers with equal children but different prefix / scope side by side
     T(CSE(Sum(X, C(1)), "p"), CSE(Sum(X, C(1))), CSE(Sum(X, C(1)), None, ("str", "pymbolic_expr"))),
     CSE(Sum(X, C(1)), "q"),                         # 12
+    # 13: two user node classes over different bases asking for the same (unimplemented) handler
+    Sum(("U:vf.usercls_gen.TaggedSum", T(X, C(4))), ("U:vf.usercls_gen.TaggedProduct", T(X, C(4)))),
 ]
 SHARED = {6}        # built with DAG sharing (the two Product(x, y) are one object)
-POOL_Q = [0, 1, 2, 3, 4, 6, 7, 8, 11, 12]
+POOL_Q = [0, 1, 2, 3, 4, 6, 7, 8, 11, 12, 13]
 # extra arguments of a call: (positional tuple, keyword items)
 ARGS = [((), ()), ((1,), ()), ((1.0,), ()), ((True,), ()), ((1, "a"), ()),
         ((), (("k", 1),)), ((), (("k", 2),)), ((1,), (("k", 1),))]
@@ -206,7 +208,8 @@ class C05(Check):
     rule = ("explicit-state BFS over call histories on ONE memoizing mapper instance: menu = "
             "(expression, extra-argument tuple) with expressions from a pool built for sharing "
             "(equal-but-not-identical subtrees, DAG sharing, 4 / 4.0 / True as leaves, in a tuple "
-            "and at top level, one CSE wrapper twice) and arguments from {(), (1,), (1.0,), "
+            "and at top level, one CSE wrapper twice, two user node classes over different bases "
+            "that name the same unimplemented handler) and arguments from {(), (1,), (1.0,), "
             "(True,), (1,'a'), k=1, k=2, (1, k=1)}; all histories up to the largest depth whose complete exploration "
             "fits 15k (quick) / 250k (thorough) transitions per mapper pair (depth 3-5); pairs: identity, argument-dependent renamer, leaf-counting combine, collector, "
             "walk, evaluation, substitution, dependency x 3 flag settings, and every class the "
@@ -264,7 +267,7 @@ class C05(Check):
                 return r
             label = item[1] + "[" + ("+".join(k for k, v in sorted(opts.items()) if v)
                                      or "none") + "]" + item[3]
-            pool = [0, 1, 2, 3, 4, 6, 7, 11]
+            pool = [0, 1, 2, 3, 4, 6, 7, 11, 13]
         if item[0] == "opt" and item[1] == "OptArgRenamer":
             args = [((1,), ()), ((1.0,), ()), ((True,), ())] if tier == "thorough" \
                 else [((1,), ()), ((1.0,), ())]
